@@ -282,8 +282,10 @@ def _starts_at_zero(loop):
     return False
 
 
-def renumber(rep, prog):
+def renumber(rep, prog, rule="C08.renumber-after-resize", only=None):
     for qn, lst_expr in (("solver::run_iteration", "this.cell_lst_"), ("cell_divider::run", None)):
+        if only is not None and qn not in only:
+            continue
         fn = prog.fn(qn)
         fi = prog.index(fn)
         cfg = fi.cfg()
@@ -297,7 +299,7 @@ def renumber(rep, prog):
         loops = [n for n in walk(fn["body"]) if _is_renumber_loop(n, lst_key) is True]
         for n in walk(fn["body"]):
             if _is_renumber_loop(n, lst_key) == "partial":
-                rep.violation("C08.renumber-after-resize", prog, fn, n, "renumbering does not start at the head of the list",
+                rep.violation(rule, prog, fn, n, "renumbering does not start at the head of the list",
                               "%s: the loop 'list[i]->set_local_id(i)' starts at %s instead of 0: the cells in front of that position keep the local ids they had before the population changed "
                               "(the removal list is filled in completion order of the threads, its first element need not be the smallest index), so a cell's local id no longer equals its place in the list"
                               % (qn, short(n["init"], 60)))
@@ -325,9 +327,9 @@ def renumber(rep, prog):
             if escapes and qn == "cell_divider::run":
                 escapes = not _witness_ok(fi, fn, c, loops, lst_key)
             if not escapes:
-                rep.ok("C08.renumber-after-resize", prog, fn, c, "%s is followed on every path by the renumbering loop" % short(c, 60))
+                rep.ok(rule, prog, fn, c, "%s is followed on every path by the renumbering loop" % short(c, 60))
             else:
-                rep.violation("C08.renumber-after-resize", prog, fn, c, "population changed without renumbering (%s)" % c.get("callee", "").split("::")[-1],
+                rep.violation(rule, prog, fn, c, "population changed without renumbering (%s)" % c.get("callee", "").split("::")[-1],
                               "%s changes the size/order of the population but a path reaches the end of %s without 'list[i]->set_local_id(i)': stale local ids are then stored in couplings and dereferenced through the list (wrong cell / out of range)" % (short(c, 80), qn))
 
 
